@@ -6,6 +6,10 @@ from lib import gz, gtext, glist, gbool, gopt, gpair
 THEOREMS = ['C08_int_text_roundtrip', 'C08_int_out_lex', 'C08_bounded_native_exact',
             'C08_bounded_roundtrip', 'C08_integer_roundtrip', 'C08_integer_in_lex']
 
+THEOREMS_DT = ['C08_dt_offset_roundtrip', 'C08_dt_usec_six_digits', 'C08_dt_usec_exact', 'C08_dt_usec_digits', 'C08_dt_datetime_roundtrip', 'C08_dt_time_roundtrip', 'C08_dt_date_roundtrip', 'C08_dt_datetime_out_lex_partial', 'C08_dt_datetime_out_lex_refuted', 'C08_dt_datetime_out_lex_iff', 'C08_dt_time_out_lex', 'C08_dt_date_out_lex', 'C08_dt_datetime_in_lex', 'C08_dt_time_in_lex', 'C08_dt_date_in_lex', 'C08_dt_datetime_reader_shape', 'C08_dt_datetime_only_valueerror', 'C08_dt_datetime_crash_iff', 'C08_dt_datetime_no_trailing_junk', 'C08_dt_time_only_valueerror', 'C08_dt_time_crash_iff', 'C08_dt_date_only_valueerror', 'C08_dt_date_crash_iff']
+THEOREMS_DUR = ['C08_duration_roundtrip', 'C08_duration_out_lex', 'C08_duration_out_lex_all', 'C08_duration_in_lex', 'C08_duration_range_abs', 'C08_duration_in_lex_strong', 'C08_duration_reader_total', 'C08_duration_out_of_range', 'C08_dur_no_trailing_junk', 'C08_dur_suffix_rejected', 'C08_boolean_roundtrip', 'C08_boolean_out_lex', 'C08_boolean_in_lex']
+THEOREMS_BIN = ['C08_base64_roundtrip', 'C08_hex_roundtrip', 'C08_base64_out_lex', 'C08_hex_out_lex', 'C08_base64_reader_total', 'C08_hex_reader_total', 'C08_hex_reader_bytes', 'C08_base64_reader_bytes', 'C08_base64_in_lex', 'C08_hex_in_lex']
+
 INT_TYPES = ['Integer', 'UnsignedInteger', 'PositiveInteger', 'Integer8', 'Integer16', 'Integer32',
              'Integer64', 'UnsignedInteger8', 'UnsignedInteger16', 'UnsignedInteger32', 'UnsignedInteger64']
 
@@ -579,6 +583,82 @@ def family_binary(check, tier):
     check.sample({'family': 'binary', 'blobs': [list(b) for b in blobs[1:4]], 'malformed': mal[:8]})
 
 
+# ------------------------------------------------------------------ decimal / double / uuid / unicode (oracle only)
+def family_other(check, tier):
+    """Decimal, Double, Uuid, Unicode, AnyUri: decided by the direct oracle only (round trip +
+    lxml lexical validity); these leaf codecs delegate to decimal/float/uuid of the standard
+    library and are not modelled in Coq (stated in the evidence)."""
+    import decimal, uuid, struct, math
+    from spyne.protocol import ProtocolBase
+    from spyne.model.primitive import Decimal, Double, Uuid, Unicode, AnyUri
+    prot = ProtocolBase()
+    rng = check.rng
+    D = decimal.Decimal
+    decs = [D(x) for x in ['0', '-0', '1', '-1', '0.1', '-0.00', '123.450', '1E+10', '1E-7', '1E-6', '1E-5', '12E1', '0E+3',
+                           '0E-10', '1E+30', '9' * 40, '-' + '9' * 40 + '.' + '9' * 40, '1.0E-20', '5E-324', '1E+100',
+                           '0.000001', '0.0000001', '100', '1.10']]
+    n = 200 if tier == 'quick' else 4000
+    for _ in range(n):
+        coeff = rng.choice([rng.randint(0, 10 ** 6), rng.randint(0, 10 ** 30)])
+        decs.append(D((rng.randrange(2), tuple(int(c) for c in str(coeff)), rng.randint(-30, 30))))
+    for d in decs:
+        s = prot.to_unicode(Decimal, d)
+        check.count(('dec', str(d)))
+        if len(s) > 1024:
+            continue
+        o = observe(prot.from_unicode, Decimal, s)
+        if o[0] != 'ok' or o[1] != d:
+            check.fail('C08|Decimal|roundtrip', 'Decimal %r written %r read back %r' % (d, s, o), {'value': str(d)})
+        elif not xsd_ok('decimal', s):
+            shape = 'scientific-notation' if 'E' in s.upper() else 'other'
+            check.fail('C08|Decimal|out_lex|%s' % shape, 'Decimal text %r is not a valid xs:decimal' % s, {'value': str(d)})
+    for lit, want in [('1', D(1)), ('+1.', D(1)), ('.5', D('0.5')), ('-0.50', D('-0.5')), ('007.10', D('7.1')), ('0', D(0))]:
+        o = observe(prot.from_unicode, Decimal, lit)
+        check.count(('decl', lit))
+        if xsd_ok('decimal', lit) and o != ('ok', want):
+            check.fail('C08|Decimal|in_lex', 'xs:decimal literal %r read as %r' % (lit, o), {'text': lit})
+    dbls = [0.0, -0.0, 1.0, -1.0, 0.1, 1e22, 1e-5, 1e21, 1e16, 123456789.123456789, 5e-324, 1.7976931348623157e308,
+            2.2250738585072014e-308, float('inf'), float('-inf'), float('nan'), 1 / 3.0, 2 ** 53 + 0.0, 1e-7]
+    for _ in range(n):
+        dbls.append(struct.unpack('<d', struct.pack('<Q', rng.getrandbits(64)))[0])
+    for f in dbls:
+        s = prot.to_unicode(Double, f)
+        o = observe(prot.from_unicode, Double, s)
+        check.count(('dbl', repr(f)))
+        same = o[0] == 'ok' and ((math.isnan(f) and math.isnan(o[1])) or
+                                 (o[1] == f and math.copysign(1, o[1]) == math.copysign(1, f)))
+        if not same:
+            check.fail('C08|Double|roundtrip', 'Double %r written %r read back %r' % (f, s, o), {'value': repr(f)})
+        elif not xsd_ok('double', s):
+            shape = 'special-value' if (math.isnan(f) or math.isinf(f)) else 'finite'
+            check.fail('C08|Double|out_lex|%s' % shape, 'Double text %r is not a valid xs:double' % s, {'value': repr(f)})
+    for lit, want in [('INF', float('inf')), ('-INF', float('-inf')), ('1e3', 1000.0), ('1E3', 1000.0), ('-0', -0.0), ('+1.5', 1.5), ('.5', .5)]:
+        o = observe(prot.from_unicode, Double, lit)
+        check.count(('dbll', lit))
+        if xsd_ok('double', lit) and o != ('ok', want):
+            check.fail('C08|Double|in_lex', 'xs:double literal %r read as %r' % (lit, o), {'text': lit})
+    for _ in range(50 if tier == 'quick' else 1000):
+        u = uuid.UUID(int=rng.getrandbits(128))
+        s = prot.to_unicode(Uuid, u)
+        o = observe(prot.from_unicode, Uuid, s)
+        check.count(('uuid', s))
+        if o != ('ok', u):
+            check.fail('C08|Uuid|roundtrip', 'Uuid %r written %r read back %r' % (u, s, o), {'value': str(u)})
+    texts = ['', 'a', ' lead', 'trail ', 'a\tb', 'ünï', '中文', '\U0001f600', '<&>', 'x' * 300, '\u0000'[:0] + 'q']
+    for _ in range(50 if tier == 'quick' else 1000):
+        texts.append(''.join(chr(rng.choice([rng.randint(32, 126), rng.randint(0xa0, 0xd7ff), rng.randint(0x10000, 0x10ffff)]))
+                             for _ in range(rng.randint(1, 10))))
+    for T in (Unicode, AnyUri):
+        for t in texts:
+            s = prot.to_unicode(T, t)
+            o = observe(prot.from_unicode, T, s)
+            check.count(('txt', T.__name__, t))
+            if t != '' and o != ('ok', t):
+                check.fail('C08|%s|roundtrip' % T.__name__, '%s %r written %r read back %r' % (T.__name__, t, s, o), {'value': t})
+    check.sample({'family': 'decimal/double/uuid/unicode (oracle only)', 'decimals': [str(d) for d in decs[:6]],
+                  'doubles': [repr(f) for f in dbls[:6]]})
+
+
 def run(check):
     tier = check.tier
     check.rule = ('per primitive family: boundary values (all 2^k, 10^k neighbours, fixed-width bounds), '
@@ -588,15 +668,20 @@ def run(check):
         'translator harness/translate/numtypes.py (validate_native / validate_string / Attributes of number models -> Gen/NumTypes.v)',
         'modelled, not verified: CPython int()/str() on text, lxml XMLSchema simple-type validation (used as the XSD oracle)',
     ]
-    check.assumptions = ['Unicode decimal digits other than ASCII are outside the modelled int() universe',
+    check.assumptions = ['Decimal, Double (finite values: CPython shortest-repr round trip), Uuid, Unicode and AnyUri are decided by the direct oracle only (standard-library codecs, not modelled in Coq)',
+                         'Unicode decimal digits other than ASCII are outside the modelled int() universe',
                          'str_format/format customisations are opaque (default formats only)']
     check.regen(['numtypes'])
     check.check_sources()
     check.prove('Props.C08', THEOREMS)
+    check.prove('Props.C08_dt', THEOREMS_DT)
+    check.prove('Props.C08_dur', THEOREMS_DUR)
+    check.prove('Props.C08_bin', THEOREMS_BIN)
     family_int(check, tier)
     family_datetime(check, tier)
     family_duration(check, tier)
     family_binary(check, tier)
+    family_other(check, tier)
     lib.flush_correspondences(check)
     return check.finish()
 
